@@ -402,7 +402,7 @@ func startInstants(rng *mon.RNG, n int) []time.Time {
 				tz = l
 			}
 		} else if rng.Chance(1, 6) {
-			tz = time.FixedZone("fz", rng.PickInt(-12*3600, 14*3600, 5*3600+1800, -(44*60 + 30), 1, -1, 86399))
+			tz = time.FixedZone("fz", rng.PickInt(-12*3600, 14*3600, 5*3600+1800, -(44*60+30), 1, -1, 86399))
 		}
 		var t time.Time
 		switch rng.Intn(10) {
@@ -573,7 +573,7 @@ func runCronSkippedDay(c *cctx, k int) {
 	sc := skippedDayCases[k]
 	c.begin(fmt.Sprintf("cron-skipped-day %s: ParseStandard(%q).Next(%s)", sc.what, sc.spec, fmtInstant(sc.from)))
 	c.sample = map[string]any{"spec": sc.spec, "from": fmtInstant(sc.from), "what": sc.what}
-	ctr["cron.skipped_day_cases"]++
+	rec.Count("cron.skipped_day_cases", 1) // not via ctr: must survive the death of this child
 	var s cron.Schedule
 	c.step("cron.ParseStandard spec=" + c.q(sc.spec))
 	c.call("cron.ParseStandard", kv("spec", sc.spec), func() error {
